@@ -30,12 +30,29 @@ EXPLANATION = (
     "3- and 9-component forms are both accepted; (R-20.3) a calculate that "
     "reads system.vel belongs to a class declared velocity dependent and vice "
     "versa, and Path.reverse recomputes orders exactly for velocity-dependent "
-    "parameters."
+    "parameters. (R-20.7) the minimum-image helper w(d, L) is translated into a "
+    "polynomial over d, L, 1/L and rounding-function atoms; w(d + k*L) - w(d) "
+    "reduces to 0 for a symbolic integer k with the rules L*(1/L) = 1 and "
+    "R(x + k) = R(x) + k for R in rint/round/floor/ceil, the unwrapped branch is "
+    "the restriction of the same function to |d| <= L/2 (the rounding term "
+    "vanishes there), and an expression whose asymptotic slope in d is not 0 is "
+    "refuted (a bounded correction cannot make d periodic). With R-20.2 and R-20.4 "
+    "(the helper receives box[:3] and the raw difference of two positions) this "
+    "gives invariance of the periodic parameters under shifting any atom by a box "
+    "vector. (R-20.8) calculate() of Distance, Distancevel, Dihedral and Puckering is "
+    "interpreted abstractly over geometric types - vector with translation weight "
+    "w (position 1, difference 0, velocity 0, mean of n positions = mean of their "
+    "weights), invariant scalar, scalar array, Cartesian component - with constant "
+    "range loops unrolled and both arms of every if explored: every returned value is "
+    "a scalar obtained through scalar/cross products and norms of weight-0 vectors, "
+    "so the value is unchanged by a rigid translation and by a rotation of all atoms."
 )
 NOT_DECIDED = (
-    "(R-20.4 decides one structural necessary condition of image-shift invariance: the wrap is applied to raw differences) "
-    "invariance under translation / rotation / periodic image shifts and the "
-    "half-box bound of the minimum-image distance (identities of real functions)"
+    "the half-box bound of the minimum-image distance as a numerical statement; rotation "
+    "invariance of the *periodic* variants is decided treating the orthorhombic wrap as "
+    "covariant (it is exact only while no wrap is active); sign change of velocity-type "
+    "parameters under velocity reversal is decided structurally (R-20.3, R-20.5), not numerically; "
+    "plug-in order parameters"
 )
 ASSUMPTIONS = [
     "NumPy: basic (integer/slice) indexing returns views, advanced (list/array) indexing and arithmetic return copies",
@@ -405,6 +422,41 @@ def r203(ctx, classes):
         ctx.bad(rid, rev, "Path.reverse does not recompute velocity-dependent order parameters after reversing velocities")
 
 
+RELATIVE = ("Distance", "Distancevel", "Dihedral", "Puckering")
+
+
+def r208(ctx, classes):
+    """Translation / rotation invariance of the relative built-in order parameters by abstract
+    interpretation of calculate() over geometric types (sa/geomtypes.py)."""
+    from .. import geomtypes as G
+
+    rid = "R-20.8"
+    byname = {name: (c, calc) for _m, name, c, calc in classes}
+    for name in RELATIVE:
+        if name not in byname:
+            raise AnalysisError(f"R-20.8: order parameter class {name} not found")
+        c, calc = byname[name]
+        # number of particles enforced by the constructor (len(index) != K -> raise)
+        n = None
+        init = next((s for s in c.body if isinstance(s, FUNC) and s.name == "__init__"), None)
+        if init is not None:
+            for cmp_ in [x for x in ast.walk(init) if isinstance(x, ast.Compare)]:
+                if isinstance(cmp_.left, ast.Call) and last_name(cmp_.left) == "len" and len(cmp_.ops) == 1 and isinstance(cmp_.ops[0], ast.NotEq) and isinstance(cmp_.comparators[0], ast.Constant):
+                    n = cmp_.comparators[0].value
+        try:
+            viols, npaths, nret = G.analyse_calculate(calc, n)
+        except G.Undecidable as exc:
+            raise AnalysisError(f"R-20.8: {name}.calculate is outside the modelled fragment: {exc}")
+        if viols:
+            for node, msg in viols:
+                ctx.bad(rid, node, f"{name}.calculate: {msg}", construct=f"{name}.calculate: {short(node, 70)}")
+        else:
+            ctx.ok(rid, calc, f"{name}.calculate: on all {npaths} path(s) every returned value ({nret}) is a scalar built from scalar/cross products and norms of vectors with translation weight 0 (differences of positions, velocities, positions re-centred on their mean)")
+    for _m, name, c, calc in classes:
+        if name not in RELATIVE:
+            ctx.note(f"R-20.8: {name} is not a relative order parameter (not armed)")
+
+
 def _rounding_vanishes(S, e, c):
     """Every rounding atom of e is 0 for |d| <= c*L (c <= 1/2): rint/round(q*d/L) with |q|*c <= 1/2,
     floor(q*d/L + 1/2), ceil(q*d/L - 1/2)."""
@@ -570,6 +622,7 @@ def r207(ctx):
 
 def run(ctx):
     ctx.rule("R-20.6", "no `for` variable of the order-parameter code is read after its loop has ended", floor=2)
+    ctx.rule("R-20.8", "distance, distance rate, dihedral and puckering are functions of translation-invariant, rotation-covariant vectors only (abstract interpretation of calculate() over geometric types: translation weight, vector/scalar/component kinds)", floor=4)
     ctx.rule("R-20.7", "the minimum-image helper w satisfies w(d + k*L) = w(d) for every integer k: symbolic proof by equivariance of the rounding function, asymptotic-slope refutation otherwise", floor=1)
     ctx.rule("R-20.1", "calculate() / calculate_order() / pbc helper never modify the system or arrays aliasing it (NumPy view/copy table)", floor=8)
     ctx.rule("R-20.2", "every box handed to pbc_dist_coordinate is system.box[:3]", floor=4)
@@ -585,11 +638,21 @@ def run(ctx):
     ctx.attempt(r204, ctx, classes)
     ctx.attempt(r205, ctx)
     ctx.attempt(r207, ctx)
+    ctx.attempt(r208, ctx, classes)
     from .shared import stale_loop_variable
     ctx.attempt(stale_loop_variable, ctx, "R-20.6", [ORDERP], None, " (another atom / component than intended enters the order parameter)")
 
 
 VARIANTS = [
+    B("c20-distance-absolute-position", ORDERP, "        delta = system.pos[self.index[1]] - system.pos[self.index[0]]\n        if self.periodic and system.box is not None:\n            box = np.array(system.box[:3])\n            delta = pbc_dist_coordinate(delta, box)\n        lamb = np.sqrt(np.dot(delta, delta))\n        return [lamb]", "        delta = system.pos[self.index[1]]\n        if self.periodic and system.box is not None:\n            box = np.array(system.box[:3])\n            delta = pbc_dist_coordinate(delta, box)\n        lamb = np.sqrt(np.dot(delta, delta))\n        return [lamb]", "R-20.8", control=True),
+    B("c20-distance-returns-component", ORDERP, "        lamb = np.sqrt(np.dot(delta, delta))\n        return [lamb]", "        lamb = np.sqrt(np.dot(delta, delta))\n        return [delta[0]]", "R-20.8"),
+    B("c20-dihedral-sum-of-positions", ORDERP, "        vector1 = pos[self.index[0]] - pos[self.index[1]]", "        vector1 = pos[self.index[0]] + pos[self.index[1]]", "R-20.8"),
+    B("c20-puckering-recentre-five-atoms", ORDERP, "        for i in range(6):\n            pos[i, :] -= center", "        for i in range(5):\n            pos[i, :] -= center", "R-20.8"),
+    B("c20-puckering-atom0-not-at-origin", ORDERP, "            pos[0, :] *= 0\n", "", "R-20.8"),
+    B("c20-distancevel-scaled-by-position", ORDERP, "        cv1 = np.dot(delta, delta_v) / lamb\n", "        cv1 = np.dot(system.pos[self.index[0]], delta_v) / lamb\n", "R-20.8"),
+    K("c20-keep-distance-norm", ORDERP, "        lamb = np.sqrt(np.dot(delta, delta))\n        return [lamb]", "        lamb = np.linalg.norm(delta)\n        return [float(lamb)]"),
+    K("c20-keep-dihedral-normalise-assign", ORDERP, "        vector2 /= np.linalg.norm(vector2)", "        vector2 = vector2 / np.sqrt(vector2.dot(vector2))"),
+    K("c20-keep-puckering-mean-method", ORDERP, "        center = np.mean(pos, axis=0)", "        center = pos.mean(axis=0)"),
     B("c20-wrap-one-box-length", ORDERP, "            pbcdist[i] = distance[i] - np.rint(distance[i] * ilength) * length", "            pbcdist[i] = distance[i] - np.copysign(length, distance[i])", "R-20.7", control=True, why="seeded C20_c"),
     B("c20-wrap-missing-length-factor", ORDERP, "            pbcdist[i] = distance[i] - np.rint(distance[i] * ilength) * length", "            pbcdist[i] = distance[i] - np.rint(distance[i] * ilength)", "R-20.7"),
     B("c20-wrap-threshold-three-quarters", ORDERP, "        if np.abs(distance[i]) > 0.5 * length:", "        if np.abs(distance[i]) > 0.75 * length:", "R-20.7"),
